@@ -35,6 +35,9 @@ FIXED = [
  ("the hint file stayed open", ["C20"], "D25", "after an adopted merge under MMap the data directory kept a 512 MiB..1 GiB hint file that Backup copied byte for byte (backup of KiB of data took minutes; hit the harness watchdog)"),
 ]
 OPEN = [
+ {"property":"C12","signature":"older-file-truncated-at-record-boundary",
+  "match":{"class":"damage","fault":"truncate","file":"older","cut":"record-boundary","outcome":"wrong-data"},
+  "what":"a data file other than the newest one that is truncated exactly at a record boundary (incl. to length 0) is accepted silently: the records behind the cut vanish (older values are served, deleted keys return, a batch whose sealing record was cut off is dropped). The format has no end-of-file marker or size record for rotated files, so no reader can notice; repairing it needs a format change (e.g. a record in file n+1 stating the final size of file n), which is not a small, safe patch. Truncation inside a record, and any truncation of the newest file (C03's torn tail), are handled."},
 ]
 log = subprocess.run(["git","-C","/repo","log","--format=%h\t%s"],capture_output=True,text=True).stdout.splitlines()
 out=[]
